@@ -362,7 +362,17 @@ func (g *hdGen) apiOp(bk int) hdOp {
 
 func (g *hdGen) mediaOp(c int) hdOp {
 	r := g.r
-	switch r.intn(10) {
+	k := r.intn(12)
+	if k >= 10 {
+		if !g.gated {
+			// sendoffer: the recipient's session subscribes to the sender's stream.  Not with a gated media server:
+			// the creation runs under the SENDER's context, which the model does not follow (notes/hub-sendoffer.md)
+			return hdOp{K: "media", C: c, Mk: "sendoffer", Stream: pick(r, []string{"video", "screen", "screen", "audio"}),
+				To: &hdRecipient{T: "session", Id: &hdIdRef{T: "pub", C: g.pickConn()}}}
+		}
+		k = 4 + r.intn(3)
+	}
+	switch k {
 	case 0, 1, 2, 3:
 		if g.gated {
 			g.blocked[c] = true
@@ -373,7 +383,8 @@ func (g *hdGen) mediaOp(c int) hdOp {
 		return hdOp{K: "media", C: c, Mk: "requestoffer", Stream: pick(r, []string{"video", "screen"}),
 			To: &hdRecipient{T: "session", Id: &hdIdRef{T: "pub", C: g.pickConn()}}}
 	case 7:
-		o := hdOp{K: "media", C: c, Mk: "candidate", Stream: pick(r, []string{"video", "screen"}),
+		// candidate, answer, endOfCandidates: one path in the server
+		o := hdOp{K: "media", C: c, Mk: pick(r, []string{"candidate", "candidate", "answer", "endOfCandidates"}), Stream: pick(r, []string{"video", "screen"}),
 			To: &hdRecipient{T: "session", Id: &hdIdRef{T: "pub", C: g.pickConn()}}}
 		if g.opts.perms && r.chance(60) {
 			// for its own stream (that is the one the publish permissions decide), any stream type
